@@ -194,6 +194,6 @@ def decoratorTail (c : DCfg) (rule : ParentRes) (parent : J) (observed : ObjMap)
       if errs.isEmpty then pure (memo, .ok ()) else pure (memo, .error (.fail "can't reconcile children"))
     else pure (memo, .ok ())
 
-def decResyncOps (resp : DecResp) : List Int := if resp.resyncAfter > 0 then [resp.resyncAfter] else []
+def decResyncOps (resp : DecResp) : List Int := if resp.resyncAfter > 0 then [clampMs resp.resyncAfter] else []
 
 end Mc
